@@ -244,4 +244,28 @@ mod verif_replay_interp {
         assert_eq!(run(&LATE.replace("BINDING", "late"), &["go", "check"]), fin("pass"));
         assert_eq!(run(&LATE.replace("BINDING", "early"), &["go", "check"]), fin("pass"));
     }
+
+    const DOCORDER: &str = r###"<scxml xmlns="http://www.w3.org/2005/07/scxml" initial="P" version="1.0" datamodel="rfsm-expression">
+ <parallel id="P">
+  <state id="R1" initial="A1">
+   <state id="A1"><transition event="step" target="A2"/></state>
+   <state id="A2"><transition event="go" target="WinA"/><transition event="auto" target="A3"/></state>
+   <state id="A3"><transition cond="true" target="WinA"/></state>
+  </state>
+  <state id="R2" initial="B1">
+   <state id="B1"><transition event="go" target="WinB"/><transition event="auto" target="B2"/></state>
+   <state id="B2"><transition cond="true" target="WinB"/></state>
+  </state>
+ </parallel>
+ <final id="WinA"/><final id="WinB"/>
+</scxml>"###;
+
+    /// C02: candidate transitions are collected over the atomic states in DOCUMENT order (not in the order the states
+    /// happened to be entered): after region R1 moved, its state is still considered before R2's, for events and for
+    /// eventless transitions alike
+    #[test]
+    fn verif_replay_interp_selection_in_document_order() {
+        assert_eq!(run(DOCORDER, &["step", "go"]), fin("WinA"));
+        assert_eq!(run(DOCORDER, &["step", "auto"]), fin("WinA"));
+    }
 }
